@@ -20,7 +20,7 @@ for p in PROPS:
     for e in getattr(m, 'EXTENSIONS', []):
         all_modules.append(importlib.import_module(e).MODULE)
     if getattr(m, 'GEN_LOGIC', None):     # regenerated logic: the theorem files of both units (the CRC table takes the kernel ~40 s once)
-        all_modules += ['SshAudit.Props.GenLogic', 'SshAudit.Props.GenLogicCrc', 'SshAudit.Props.GenLogic2', 'SshAudit.Props.GenLogic3', 'SshAudit.Props.GenLogic4', 'SshAudit.Props.GenLogic5']
+        all_modules += ['SshAudit.Props.GenLogic', 'SshAudit.Props.GenLogicCrc', 'SshAudit.Props.GenLogic2', 'SshAudit.Props.GenLogic3', 'SshAudit.Props.GenLogic4', 'SshAudit.Props.GenLogic5', 'SshAudit.Props.GenLogic6']
     checks.append({
         'property_id': p,
         'quick_cmd': '%s harness/check.py %s --tier quick' % (PY, p),
